@@ -532,7 +532,7 @@ impl Melda {
                 // If its an array descriptor first need to compute the delta
                 // If create_delta_array_descriptor returns None it means that there are
                 // no differences between the current array and the new one
-                let object = if is_array_descriptor(uuid) {
+                let object = if is_array_descriptor(uuid) && !winning_revision.is_deleted() {
                     self.create_delta_array_descriptor(obj, &rt_w).unwrap()
                 } else {
                     Some(obj)
